@@ -33,6 +33,10 @@ var c02Workflows = map[string]string{
 	"callee-defect-2.yml": "on: push\njobs:\n  j:\n    runs-on: ubuntu-latest\n    steps:\n      - uses: ./.github/actions/bad\n      - uses: ./.github/actions/broken\n  k:\n    uses: ./.github/workflows/badwf.yml\n  m:\n    uses: ./.github/workflows/missing.yml\n",
 	// candidates whose positions have an increasing line and a DECREASING column (flow style over several lines):
 	// the order "first by position" must still be a total order there
+	// incomplete jobs (no runs-on / no steps) between complete ones on different platforms: whatever a rule remembers about the
+	// job it has just left (platform, default shells, seen ids) would show in the diagnostics of the next one — and the next
+	// one is whichever the map iteration yields
+	"incomplete-jobs.yml": "on: push\njobs:\n  w1: {runs-on: windows-latest, steps: [{run: echo, shell: bash}]}\n  n1: {steps: [{run: echo, shell: sh}, {run: echo, shell: cmd}]}\n  u1: {runs-on: ubuntu-latest, steps: [{run: echo, shell: pwsh}]}\n  n2: {steps: [{run: echo, shell: powershell}, {id: a, run: echo}, {id: a, run: echo}]}\n  m1: {runs-on: macos-latest, steps: [{id: a, run: echo, shell: bash}]}\n  n3: {steps: [{run: echo, shell: sh}]}\n  w2: {runs-on: windows-2022, defaults: {run: {shell: cmd}}, steps: [{run: echo}]}\n  n4: {steps: [{run: echo, shell: cmd}, {run: echo, shell: bash}]}\n  n5: {runs-on: ubuntu-latest}\n  n6: {steps: [{id: a, run: echo, shell: pwsh}]}\n",
 	"staircase.yml": "on: push\njobs: {\n        aa: {needs: [bb], runs-on: ubuntu-latest, steps: [{run: echo}]},\n      bb: {needs: [aa], runs-on: ubuntu-latest, steps: [{run: echo}]},\n    cc: {needs: [dd], runs-on: ubuntu-latest, steps: [{run: echo}]},\n  dd: {needs: [cc], runs-on: ubuntu-latest, steps: [{run: echo}]},\n  l: {runs-on: [                 linux,\n          ubuntu-22.04,\n    windows-latest, macos-latest], steps: [{run: echo}]},\n  m: {strategy: {matrix: {include: [{os: linux}], os: [ubuntu-22.04], target: [windows-latest]}}, runs-on: [\"${{ matrix.os }}\", \"${{ matrix.target }}\"], steps: [{run: echo}]}\n}\n",
 }
 
